@@ -357,6 +357,20 @@ class C13(BaseCheck):
             'unindexed': k.random() < 0.4,
             'gc_at': k.choice([None, None, k.randrange(50, 1500)]),
         }
+        # a FULL cache when the threads start: the capacity's worth of filters is compiled first (oldest = the
+        # first pool filter), then one thread keeps re-using that oldest, still cached filter while the others
+        # compile new ones -- hits racing with evictions/recycling.  As-shipped capacity costs 500 compilations,
+        # so it is drawn rarely.
+        if knobs['cache'] is not None:
+            knobs['prefill'] = knobs['cache'] if k.random() < 0.3 else 0
+        else:
+            knobs['prefill'] = 500 if k.random() < (0.06 if tier == 'quick' else 0.15) else 0
+        if knobs['prefill']:
+            threads[0]['ops'] = [{'op': 'filter', 'f': 0}, {'op': 'recheck'}, {'op': 'filter', 'f': 0}] + threads[0]['ops'][:2]
+            for t in threads[1:]:
+                m = k.choice([1, 2, 3])
+                t['ops'].insert(0, {'op': 'scan', 'ids': list(range(scan_id, scan_id + m))})
+                scan_id += m
         if knobs['unindexed'] and knobs['shared_grid']:
             # the lazily built id index only matters to filters that follow a reference: make sure several
             # threads open with one (distinct ones where the pool has them) while the index is still unbuilt
@@ -589,6 +603,12 @@ class C13(BaseCheck):
             if knobs.get('unindexed'):
                 shared = shared[:]
                 stats['unindexed_shared_grid_runs'] = 1
+            if knobs.get('prefill'):
+                pre = build_grid(hs, spec)
+                pre.filter(pool[0]['text'])                      # the oldest entry: what thread 0 keeps using
+                for u in range(knobs['prefill'] - 1):
+                    pre.filter(filter_text({'kind': 'scan', 'v': u % spec['nrows'], 'u': 100000 + u}))
+                stats['prefilled_cache_runs'] = 1
             out.writes = []
             out.n = 0
             out.fault = fault
